@@ -241,7 +241,7 @@ def handleRt (toks impl : List String) : String :=
                 if dumpV d != decS then s!"CORR clause=lt.decode_model model={(dumpV d).take 300}"
                 else
                   -- the leaf-wise round trip of the structure theorem must give the same value
-                  match rtOf Spec.schema 64 false (.named "DB") db with
+                  match rtOf Spec.schema 64 false (.named "DB") (zeroOf Spec.schema 8 (.named "DB")) db with
                   | some q => if dumpV q == decS then s!"OK nt=1 dom={dflag} rt=1" else s!"CORR clause=lt.rt_model rt={(dumpV q).take 300}"
                   | none => s!"OK nt=1 dom={dflag} rt=0"
               | .err _ => if decS == "err" then s!"OK nt=1 dom={dflag}" else "CORR clause=lt.decode_model model=err"
